@@ -5,6 +5,7 @@ import (
 	"os"
 	"os/exec"
 	"strconv"
+	"sync/atomic"
 	"testing"
 	"time"
 )
@@ -748,6 +749,66 @@ func TestNoTimeJumpWhileSomebodyCanRun(t *testing.T) {
 		}})
 		if st := GetStats(); st.TimerJumps != 0 || st.TimerFires != 0 || beats != 0 {
 			t.Fatalf("seed %d: jumps %d fires %d beats %d", seed, st.TimerJumps, st.TimerFires, beats)
+		}
+	}
+}
+
+func TestChanLenOfOwnedAndForeignChannels(t *testing.T) {
+	Begin(cfg(1, PolRandom))
+	Run([]func(){func() {
+		b := RegChan(make(chan int, 3))
+		ChanSend(b, 1)
+		ChanSend(b, 2)
+		if ChanLen(b) != 2 || cap(b) != 3 {
+			t.Errorf("owned: len %d cap %d", ChanLen(b), cap(b))
+		}
+		ChanRecv(b)
+		if ChanLen(b) != 1 {
+			t.Errorf("owned after a receive: len %d", ChanLen(b))
+		}
+		f := make(chan int, 2) // not the simulator's
+		ChanSend(f, 7)
+		if ChanLen(f) != 1 || ChanRecv(f) != 7 || ChanLen(f) != 0 {
+			t.Errorf("foreign channel")
+		}
+		var nilch chan int
+		if ChanLen(nilch) != 0 {
+			t.Errorf("nil channel")
+		}
+	}})
+}
+
+// Spin-waits that end under Go's (eventually fair) scheduler end under every policy:
+// Gosched and Sleep give way, and no policy keeps one task running for ever.
+func TestSpinWaitsTerminateUnderEveryPolicy(t *testing.T) {
+	for seed := uint64(1); seed <= 24; seed++ {
+		for pol := 0; pol < NPolicies; pol++ {
+			for kind := 0; kind < 3; kind++ {
+				c := cfg(seed, pol)
+				c.SwitchPct = 0 // a sticky policy that never switches of its own accord
+				c.PCTDepth = 0  // and PCT without change points
+				Begin(c)
+				var flag uint32
+				spin := func() {
+					for atomic.LoadUint32(&flag) == 0 {
+						switch kind {
+						case 0:
+							Yield(YAtomic, 0) // a bare spin on an atomic
+						case 1:
+							Gosched()
+						case 2:
+							TimeSleep(time.Millisecond)
+						}
+					}
+				}
+				set := func() {
+					for i := 0; i < 50; i++ {
+						Yield(YAtomic, 0)
+					}
+					atomic.StoreUint32(&flag, 1)
+				}
+				Run([]func(){spin, set, spin})
+			}
 		}
 	}
 }
